@@ -27,6 +27,12 @@ type c02Pinned struct {
 }
 
 var c02PinnedExtra = []c02Pinned{
+	{ID: "go/builder-map-of-array-of-struct-undefined-depth-variable", Formats: []string{"jsonschema"}, Builders: true,
+		Src:  `(defs "Root" ("Root" (struct (field "name" (dict (array (ref "S"))) true false -))) ("S" (struct (field "p" (bool) true false -))))`,
+		Note: "builder option for a map of arrays of builders refers to a loop variable <field>Depth1 that is never declared"},
+	{ID: "go/builder-map-of-map-of-struct", Formats: []string{"jsonschema"}, Builders: true,
+		Src:  `(defs "Root" ("Root" (struct (field "note" (dict (dict (ref "S"))) true false -))) ("S" (struct (field "p" (bool) true false -))))`,
+		Note: "builder option for a map of maps of builders calls Build() on the inner map"},
 	{ID: "go/unused-import-fmt-union-marshaller-without-strict", Formats: []string{"jsonschema"}, GoFlags: "101100",
 		Src:  `(defs "Root" ("Root" (struct (field "a" (oneOfScalars (string - - false) (bool)) true false -))))`,
 		Note: "generate_json_marshaller without the strict unmarshaller on a schema with a union"},
